@@ -346,50 +346,71 @@ theorem c16a_witness :
 
 /-! ## xlsx: `xl/workbook.xml` (event level; quick-xml trusted) -/
 
+def d22Events : List Ev :=
+  [.start "x:workbook" [], .start "x:workbookPr" [("date1904", "1")], .end_ "x:workbookPr",
+   .start "x:sheets" [], .start "x:sheet" [("name", "S1"), ("sheetId", "1"), ("r:id", "rId1")], .end_ "x:sheet",
+   .end_ "x:sheets", .end_ "x:workbook"]
+
+def d22Rels : List (String × String) := [("rId1", "worksheets/sheet1.xml")]
+
+
+
 /-- **xlsx: sheets, defined names and the date flag in document order.** For every element prefix (`q` with
     `local_name (q s) = s`), every spelling of the relationship-id attribute with a prefix and local name `id`,
     every list of declared sheets whose relationship resolves to a part in a known folder, every list of
     defined names (text possibly split over several Text events) and every `workbookPr` attribute list:
     the reader reports exactly the declared sheets in order (name, kind from the folder, visibility from
     `state`, default visible), the defined names in order with their concatenated text, and
-    `date1904 ∈ {"1","true"}`. -/
+    `date1904 ∈ {"1","true"}` — and an `<extLst>` at the end of the workbook element changes nothing of this,
+    whatever it contains (elements of any namespace and local name, text, comments; only a nested element with
+    the list's own qualified name is excluded): after fix 4dbff9e its subtree is skipped. -/
 theorem sheets_in_order_xlsx (rels : List (String × String)) (q : String → String) (hq : QOk q)
     (ridKey : String) (hk : ridKeyOk ridKey) (pr : Option (List (String × String)))
-    (sheets : List XSheet) (hs : ∀ s ∈ sheets, s.ok rels) (names : List (String × List String)) :
-    readWorkbookXlsx rels (workbookEvents q ridKey pr sheets names) =
+    (sheets : List XSheet) (hs : ∀ s ∈ sheets, s.ok rels) (names : List (String × List String))
+    (ext : Option (List Ev)) (hext : ∀ body, ext = some body → ExtOk (q "extLst") body) :
+    readWorkbookXlsx rels (workbookEvents q ridKey pr sheets names ext) =
       .ok (⟨sheets.map (fun s => ⟨s.name, s.kind, s.vis⟩), names.map dnValue, (pr.map date1904Attr).getD false⟩,
            sheets.map (fun s => xlsxPath s.target.toList)) := by
   unfold readWorkbookXlsx xlsxLoop workbookEvents
-  change xlsxFinish (xlsxLoopWith prMatchFixed rels _ _) = _
-  have e1 : ∀ (rest : List Ev) (st : XlsxSt), st.cur = none →
-      xlsxLoopWith prMatchFixed rels (.start (q "workbook") [] :: rest) st = xlsxLoopWith prMatchFixed rels rest st :=
-    fun rest st hc => loop_start_skip _ _ _ _ _ _ hc (by rw [hq]; decide) (by rw [pm_q q hq]; decide) (by rw [hq]; decide)
-  have e2 : ∀ (rest : List Ev) (st : XlsxSt), st.cur = none →
-      xlsxLoopWith prMatchFixed rels (.start (q "sheets") [] :: rest) st = xlsxLoopWith prMatchFixed rels rest st :=
-    fun rest st hc => loop_start_skip _ _ _ _ _ _ hc (by rw [hq]; decide) (by rw [pm_q q hq]; decide) (by rw [hq]; decide)
-  have e3 : ∀ (rest : List Ev) (st : XlsxSt), st.cur = none →
-      xlsxLoopWith prMatchFixed rels (.start (q "definedNames") [] :: rest) st = xlsxLoopWith prMatchFixed rels rest st :=
-    fun rest st hc => loop_start_skip _ _ _ _ _ _ hc (by rw [hq]; decide) (by rw [pm_q q hq]; decide) (by rw [hq]; decide)
-  have e4 : ∀ (n : String), n ≠ "workbook" → ∀ (rest : List Ev) (st : XlsxSt), st.cur = none →
-      xlsxLoopWith prMatchFixed rels (.end_ (q n) :: rest) st = xlsxLoopWith prMatchFixed rels rest st :=
-    fun n hn rest st hc => loop_end_skip _ _ _ _ _ hc (by rw [hq]; exact hn)
-  rw [e1 _ _ rfl]
+  have e1 : ∀ (n : String), n ≠ "extLst" → n ≠ "sheet" → n ≠ "workbookPr" → n ≠ "definedName" →
+      ∀ (a : List (String × String)) (rest : List Ev) (st : XlsxSt), st.cur = none → st.skip = none →
+      xlsxLoopWith cfgNow rels (.start (q n) a :: rest) st = xlsxLoopWith cfgNow rels rest st :=
+    fun n h0 h1 h2 h3 a rest st hc hk =>
+      loop_start_skip _ _ _ _ _ _ hc hk (by rw [hq]; exact h0) (by rw [hq]; exact h1) (by rw [pm_q q hq]; simp [h2]) (by rw [hq]; exact h3)
+  have e4 : ∀ (n : String), n ≠ "workbook" → ∀ (rest : List Ev) (st : XlsxSt), st.cur = none → st.skip = none →
+      xlsxLoopWith cfgNow rels (.end_ (q n) :: rest) st = xlsxLoopWith cfgNow rels rest st :=
+    fun n hn rest st hc hk => loop_end_skip _ _ _ _ _ hc hk (by rw [hq]; exact hn)
+  rw [e1 "workbook" (by decide) (by decide) (by decide) (by decide) _ _ _ rfl rfl]
   -- the optional <workbookPr/>
   have hpr : ∀ (rest : List Ev),
-      xlsxLoopWith prMatchFixed rels
-        (prEvents q pr ++ rest) ⟨[], [], false, none⟩ =
-      xlsxLoopWith prMatchFixed rels rest ⟨[], [], (pr.map date1904Attr).getD false, none⟩ := by
+      xlsxLoopWith cfgNow rels (prEvents q pr ++ rest) ⟨[], [], false, none, none⟩ =
+      xlsxLoopWith cfgNow rels rest ⟨[], [], (pr.map date1904Attr).getD false, none, none⟩ := by
     intro rest
     cases pr with
     | none => rfl
     | some attrs =>
       simp only [prEvents, List.cons_append, List.nil_append, Option.map_some, Option.getD_some]
-      rw [loop_start_pr _ _ _ _ _ _ _ _ (by rw [hq]; decide) (by rw [pm_q q hq]; decide)]
-      rw [e4 "workbookPr" (by decide) _ _ rfl]
-  have h0 : ({} : XlsxSt) = ⟨[], [], false, none⟩ := rfl
-  rw [h0, hpr, e2 _ _ rfl, loop_sheets _ _ q hq ridKey hk sheets hs, e4 "sheets" (by decide) _ _ rfl, e3 _ _ rfl,
-    loop_names _ _ q hq (by rw [pm_q q hq]; decide), e4 "definedNames" (by decide) _ _ rfl,
-    loop_end_workbook _ _ _ _ _ rfl (hq "workbook")]
+      rw [loop_start_pr _ _ _ _ _ _ _ _ (by rw [hq]; decide) (by rw [hq]; decide) (by rw [pm_q q hq]; decide)]
+      rw [e4 "workbookPr" (by decide) _ _ rfl rfl]
+      have : cfgNow.keepFlag = true := rfl
+      rw [this, date1904Upd_false]
+  -- the optional <extLst>…</extLst>: skipped whatever it holds
+  have hx : ∀ (rest : List Ev) (sh : List (Sheet String × List Char)) (nm : List (String × String)) (d : Bool),
+      xlsxLoopWith cfgNow rels (extEvents q ext ++ rest) ⟨sh, nm, d, none, none⟩ =
+      xlsxLoopWith cfgNow rels rest ⟨sh, nm, d, none, none⟩ := by
+    intro rest sh nm d
+    cases hE : ext with
+    | none => rfl
+    | some body =>
+      simp only [extEvents, List.cons_append, List.append_assoc, List.nil_append]
+      rw [loop_start_ext _ _ rfl _ _ _ _ _ _ (hq "extLst")]
+      rw [loop_skip_body _ _ (q "extLst") 0 body (hext body hE) _ _ rfl, loop_skip_end]
+  have h0 : ({} : XlsxSt) = ⟨[], [], false, none, none⟩ := rfl
+  rw [h0, hpr, e1 "sheets" (by decide) (by decide) (by decide) (by decide) _ _ _ rfl rfl,
+    loop_sheets _ _ q hq ridKey hk sheets hs, e4 "sheets" (by decide) _ _ rfl rfl,
+    e1 "definedNames" (by decide) (by decide) (by decide) (by decide) _ _ _ rfl rfl,
+    loop_names _ _ q hq (by rw [pm_q q hq]; decide), e4 "definedNames" (by decide) _ _ rfl rfl, hx,
+    loop_end_workbook _ _ _ _ _ rfl rfl (hq "workbook")]
   simp [xlsxFinish, xsheetDecoded, List.map_map, Function.comp_def]
 
 /-- the hypotheses of `sheets_in_order_xlsx` are satisfiable: prefix `x:`, `rel:id`, a hidden chart sheet and a
@@ -409,22 +430,53 @@ theorem defined_names_in_order_xlsx (rels : List (String × String)) (q : String
     (sheets : List XSheet) (hs : ∀ s ∈ sheets, s.ok rels) (names : List (String × List String)) :
     (readWorkbookXlsx rels (workbookEvents q ridKey pr sheets names)).isOk = true ∧
     ∀ wb p, readWorkbookXlsx rels (workbookEvents q ridKey pr sheets names) = .ok (wb, p) → wb.names = names.map dnValue := by
-  rw [sheets_in_order_xlsx rels q hq ridKey hk pr sheets hs names]
+  rw [sheets_in_order_xlsx rels q hq ridKey hk pr sheets hs names none (by intro _ h; cases h)]
   refine ⟨rfl, ?_⟩
   intro wb p h
   cases h
   rfl
 
-/-- **xlsx: the date-system flag** is `true` exactly for `date1904="1"` / `"true"`, whatever prefix the element has (after fix D22) -/
+/-- **xlsx: the date-system flag** is `true` exactly for `date1904="1"` / `"true"` on the main-namespace
+    `workbookPr`, whatever prefix that element has (fix D22), and inert foreign content does not change it: an
+    extension list holding, e.g., `<x15:workbookPr chartTrackingRefBase="1"/>` (no `date1904` attribute; written
+    by Excel 2013+), `x14:definedName` or any other element whose local name collides with one the reader
+    interprets leaves the flag — and the sheets and names — as declared (fix 4dbff9e; finding C16-b) -/
 theorem date1904_flag_xlsx (rels : List (String × String)) (q : String → String) (hq : QOk q)
     (ridKey : String) (hk : ridKeyOk ridKey) (v : String)
-    (sheets : List XSheet) (hs : ∀ s ∈ sheets, s.ok rels) (names : List (String × List String)) :
-    ∀ wb p, readWorkbookXlsx rels (workbookEvents q ridKey (some [("date1904", v)]) sheets names) = .ok (wb, p) →
+    (sheets : List XSheet) (hs : ∀ s ∈ sheets, s.ok rels) (names : List (String × List String))
+    (ext : Option (List Ev)) (hext : ∀ body, ext = some body → ExtOk (q "extLst") body) :
+    ∀ wb p, readWorkbookXlsx rels (workbookEvents q ridKey (some [("date1904", v)]) sheets names ext) = .ok (wb, p) →
       wb.is1904 = (v = "1" || v = "true") := by
-  rw [sheets_in_order_xlsx rels q hq ridKey hk _ sheets hs names]
+  rw [sheets_in_order_xlsx rels q hq ridKey hk _ sheets hs names ext hext]
   intro wb p h
   cases h
   simp [date1904Attr, List.lookup]
+
+/-- the extension list Excel 2013+ writes, plus an Excel-2010 function description and a foreign `sheet` -/
+def x15Ext : List Ev :=
+  [.start "ext" [("uri", "{140A7094-0E35-4892-8432-C4D2E57EDEB5}")], .start "x15:workbookPr" [("chartTrackingRefBase", "1")],
+   .end_ "x15:workbookPr", .end_ "ext",
+   .start "ext" [("uri", "{46BE6895-7355-4a93-B00E-2C351335B9C9}")], .start "x14:definedName" [("name", "ExtFn")],
+   .text "first argument", .end_ "x14:definedName", .start "x15:sheet" [("name", "shadow")], .end_ "x15:sheet", .end_ "ext"]
+
+/-- `x15Ext` meets the hypothesis of the two theorems above -/
+example : ExtOk "extLst" x15Ext := by
+  intro e he
+  simp [x15Ext] at he
+  rcases he with rfl | rfl | rfl | rfl | rfl | rfl | rfl | rfl | rfl | rfl | rfl <;> simp
+
+/-- finding C16-b as a checked statement. On a 1904-system workbook that carries `x15Ext`: the reader between the
+    D22 fix and 4dbff9e (local-name match, flag reset, no skipping) opens the workbook, loses the flag, lists the
+    function description as a defined name — and fails on the foreign `sheet`; restricted to the element Excel
+    really writes it silently reports `is_1904 = false`. The current reader reports what the workbook declares. -/
+theorem c16b_witness :
+    readWorkbookXlsxD22Fix d22Rels
+      (workbookEvents id "r:id" (some [("date1904", "1")]) [⟨"S1", "1", .visible, false, "rId1", "worksheets/sheet1.xml", .workSheet⟩] []
+        (some (x15Ext.take 4))) = .ok (⟨[⟨"S1", .workSheet, .visible⟩], [], false⟩, ["xl/worksheets/sheet1.xml".toList]) ∧
+    readWorkbookXlsx d22Rels
+      (workbookEvents id "r:id" (some [("date1904", "1")]) [⟨"S1", "1", .visible, false, "rId1", "worksheets/sheet1.xml", .workSheet⟩] []
+        (some x15Ext)) = .ok (⟨[⟨"S1", .workSheet, .visible⟩], [], true⟩, ["xl/worksheets/sheet1.xml".toList]) := by
+  decide
 
 /-! ## ods: `content.xml` (event level; quick-xml trusted) -/
 
@@ -512,21 +564,15 @@ theorem date1904_reaches_cells_xlsb (pf : Bytes → List Text → List (Text × 
 theorem date1904_reaches_cells_xlsx (rels : List (String × String)) (q : String → String) (hq : QOk q)
     (ridKey : String) (hk : ridKeyOk ridKey) (d : String)
     (sheets : List XSheet) (hs : ∀ s ∈ sheets, s.ok rels) (names : List (String × List String))
+    (ext : Option (List Ev)) (hext : ∀ body, ext = some body → ExtOk (q "extLst") body)
     (wb : Workbook String) (p : List (List Char))
-    (h : readWorkbookXlsx rels (workbookEvents q ridKey (some [("date1904", d)]) sheets names) = .ok (wb, p))
+    (h : readWorkbookXlsx rels (workbookEvents q ridKey (some [("date1904", d)]) sheets names ext) = .ok (wb, p))
     (fmt : Option CellFormat) (hf : fmt = some .dateTime ∨ fmt = some .timeDelta) (v : UInt64) (i : Int) :
     flagOf (floatCell wb fmt v) = some (d = "1" || d = "true") ∧ flagOf (intCell wb fmt i) = some (d = "1" || d = "true") := by
-  rw [← date1904_flag_xlsx rels q hq ridKey hk d sheets hs names wb p h]
+  rw [← date1904_flag_xlsx rels q hq ridKey hk d sheets hs names ext hext wb p h]
   exact (date1904_reaches_cells wb fmt v i).1 hf
 
 /-! ## xlsx: the date-system flag under a namespace prefix (ledger D22) -/
-
-def d22Events : List Ev :=
-  [.start "x:workbook" [], .start "x:workbookPr" [("date1904", "1")], .end_ "x:workbookPr",
-   .start "x:sheets" [], .start "x:sheet" [("name", "S1"), ("sheetId", "1"), ("r:id", "rId1")], .end_ "x:sheet",
-   .end_ "x:sheets", .end_ "x:workbook"]
-
-def d22Rels : List (String × String) := [("rId1", "worksheets/sheet1.xml")]
 
 /-- the pinned snapshot (`e.name() == "workbookPr"`) opens the prefixed workbook but loses the flag; the code
     after fix D22 (`local_name`) reports it -/
